@@ -8,6 +8,7 @@ require (
 	github.com/cossacklabs/themis/gothemis v0.14.0
 	github.com/jackc/pgx/v5 v5.7.2
 	github.com/sirupsen/logrus v1.6.0
+	go.etcd.io/bbolt v1.3.6
 )
 
 require (
@@ -27,7 +28,6 @@ require (
 	github.com/prometheus/procfs v0.6.0 // indirect
 	github.com/tinylib/msgp v1.1.6 // indirect
 	github.com/uber/jaeger-client-go v2.25.0+incompatible // indirect
-	go.etcd.io/bbolt v1.3.6 // indirect
 	go.opencensus.io v0.24.0 // indirect
 	golang.org/x/crypto v0.36.0 // indirect
 	golang.org/x/net v0.38.0 // indirect
